@@ -58,6 +58,7 @@ type elCall struct {
 	Method string `json:"method"`
 	Head   string `json:"head,omitempty"`
 	Safe   string `json:"safe,omitempty"`
+	Final  string `json:"final,omitempty"`
 	Number uint64 `json:"number,omitempty"`
 	Attrs  bool   `json:"attrs,omitempty"`
 	Fault  string `json:"fault,omitempty"`
@@ -112,7 +113,7 @@ func (a *engineAPI) ForkchoiceUpdatedV3(update engine.ForkchoiceStateV1, attrs *
 	e.mu.Lock()
 	defer e.mu.Unlock()
 	f := e.fault("forkchoiceUpdatedV3")
-	e.calls = append(e.calls, elCall{Method: "forkchoice", Head: update.HeadBlockHash.Hex(), Safe: update.SafeBlockHash.Hex(), Attrs: attrs != nil, Fault: f})
+	e.calls = append(e.calls, elCall{Method: "forkchoice", Head: update.HeadBlockHash.Hex(), Safe: update.SafeBlockHash.Hex(), Final: update.FinalizedBlockHash.Hex(), Attrs: attrs != nil, Fault: f})
 	switch f {
 	case "error":
 		return engine.ForkChoiceResponse{}, fmt.Errorf("scripted engine error")
@@ -201,6 +202,9 @@ func (a *engineAPI) NewPayloadV4(d engine.ExecutableData, versionedHashes []comm
 	reqs := make([][]byte, len(requests))
 	for i := range requests {
 		reqs[i] = requests[i]
+	}
+	if n, known := numberOf[d.BlockHash]; d.Number == 0 && known && n == 0 {
+		return engine.PayloadStatusV1{Status: engine.VALID}, nil // the genesis block: its hash is fixed by the harness
 	}
 	if blockHashOf(&d, reqs) != d.BlockHash {
 		return engine.PayloadStatusV1{Status: engine.INVALID}, nil
@@ -514,6 +518,20 @@ func (w *World) HonestBlock(mempool [][]byte, reqs goattypes.LockingRequests, br
 	}
 	res.Process = w.Process(txs, w.ValAddr)
 	if res.Process != "ACCEPT" {
+		if os.Getenv("AH_DEBUG") != "" {
+			for i, raw := range txs {
+				if tx, err := w.TxCfg.TxDecoder()(raw); err == nil {
+					if sv, ok := tx.(xauthsigning.SigVerifiableTx); ok {
+						sigs, _ := sv.GetSignaturesV2()
+						for _, sg := range sigs {
+							_, cs := w.accountInfo(sdk.AccAddress(sg.PubKey.Address()), false)
+							_, ks := w.accountInfo(sdk.AccAddress(sg.PubKey.Address()), true)
+							fmt.Fprintf(os.Stderr, "DEBUG reject h=%d tx%d signer=%x txseq=%d committed=%d checkstate=%d mempool=%d\n", w.Height, i, sg.PubKey.Address(), sg.Sequence, cs, ks, len(mempool))
+						}
+					}
+				}
+			}
+		}
 		return res
 	}
 	fr, err := w.Finalize(txs, w.ValAddr)
